@@ -1,7 +1,7 @@
 # usage: run_patch.py <patch> [IDs]: all (or the given) rule modules on a scratch copy of /repo + patch; prints the failed obligations that are not known findings. SLOT=<n> selects the cargo target dir .build/target-par-<n> (runs with different SLOTs may overlap).
 # usage: one_patch.py <patch> : run all rule modules on repo+patch; print failures not in known findings
 import sys, importlib, os, json
-sys.path.insert(0,'/tmp'); sys.path.insert(0,'/verif')
+sys.path.insert(0, os.path.dirname(os.path.dirname(os.path.abspath(__file__))))
 from lib import report as R, facts as FA, selfval, extract as X
 import subprocess, shutil
 patch=sys.argv[1]
